@@ -182,6 +182,50 @@ harness! {
     }
 }
 
+// The SEARCH for the truncation point (the tail-mass formula itself is libm and stays outside):
+// with `right_hand_side` replaced by an ARBITRARY function of n (symbolic table for the first four
+// candidates, 0 afterwards so that the search ends), the constructor settles on the SMALLEST
+// n >= sensitivity whose tail mass is <= delta, and evaluates the criterion with the configured
+// sensitivity and epsilon.
+static mut RHS_TABLE: [f64; 4] = [0.0; 4];
+static mut RHS_BASE: u32 = 0;
+static mut RHS_EPS: f64 = 0.0;
+fn right_hand_side_stub(n: u32, big_delta: u32, epsilon: f64) -> f64 {
+    assert!(big_delta == unsafe { RHS_BASE }, "criterion evaluated for the configured sensitivity");
+    assert!(epsilon == unsafe { RHS_EPS }, "criterion evaluated for the configured epsilon");
+    assert!(n >= big_delta, "candidates start at the sensitivity");
+    let k = n - big_delta;
+    if k < 4 { unsafe { RHS_TABLE[k as usize] } } else { 0.0 }
+}
+
+harness! {
+    #[kani::unwind(7)]
+    #[kani::stub(crate::protocol::ipa_prf::oprf_padding::insecure::right_hand_side, crate::protocol::dp::verif_kani::right_hand_side_stub)]
+    fn q12_truncation_point_is_the_smallest_admissible() {
+        let eps: f64 = kani::any();
+        let delta: f64 = kani::any();
+        let sens: u32 = kani::any();
+        let table: [f64; 4] = kani::any();
+        kani::assume(!eps.is_nan() && !delta.is_nan());
+        kani::assume(!table[0].is_nan() && !table[1].is_nan() && !table[2].is_nan() && !table[3].is_nan());
+        unsafe {
+            RHS_TABLE = table;
+            RHS_BASE = sens;
+            RHS_EPS = eps;
+        }
+        let r = OPRFPaddingDp::new(eps, delta, sens);
+        if let Ok(d) = &r {
+            let k: u32 = if delta >= table[0] { 0 } else if delta >= table[1] { 1 } else if delta >= table[2] { 2 } else if delta >= table[3] { 3 } else { 4 };
+            assert!(d.get_shift() == sens + k, "the smallest n >= sensitivity with tail mass <= delta");
+            kani::cover!(k == 0);
+            kani::cover!(k == 2);
+            kani::cover!(k == 4);
+        }
+        kani::cover!(r.is_ok());
+        std::mem::forget(r);
+    }
+}
+
 // native replay slot (cargo kani playback): the driver points IPA_VERIF_REPLAY_DIR at a directory
 // holding one file per hook; the generated test calls the harness by its path relative to this module.
 #[cfg(test)]
